@@ -36,8 +36,6 @@ void h_scratch_restarts(void) {
 }
 #endif
 
-/* (b) "ran_start(seed) overwrites the whole generator state (ran_x, ran_arr_ptr; ran_arr_buf is refilled by the
- * next draw) from the seed alone" is NOT machine-checked: symbolic execution of Knuth's ran_start + the first
- * ran_arr_cycle (2 x (100 + 10*199 + 1009) iterations over arrays with arbitrary prior contents) ran out of memory.
- * It is an assumption of C05, stated in defs.py; it can be read off rng.c:ran_start (every ran_x[j] is assigned,
- * ran_arr_ptr is set to &ran_arr_started, nothing is read from the old state). */
+/* (b) "ran_start(seed) makes the generator state a function of the seed alone" is checked in C05/ranstart.c (unit
+ * c05_ran_start_determines_state) as a 2-safety obligation over two independent copies of rng.c with the concrete seed the
+ * library uses; an earlier attempt with a symbolic seed and the first ran_arr_cycle ran out of memory. */
